@@ -1,5 +1,6 @@
-(** C02 (emit-parses), part 0: unfolding equations of the independent reader, in [eqb] form.
-    [Checkers/Parse.v] reads the tokens printed by [tp_tokens] back into [ir_pty]. *)
+(** C02 (emit-parses), part 0: unfolding equations of the independent reader
+    [Checkers/Parse.v] in [eqb] form (the reader matches tokens against string literals;
+    each equation is proved once by case analysis on the characters of the unknown token). *)
 From Coq Require Import List NArith String Ascii Bool Lia Arith.
 From V Require Import Base.Util Base.Strings Base.Result Model.Registry Model.Settings Model.Subst
   Model.TypePath Model.Derives Model.Generate Model.Emit Model.WellFormed Checkers.Parse
@@ -8,8 +9,6 @@ Import ListNotations.
 Open Scope string_scope. Open Scope list_scope.
 
 (** ** matching an unknown token against literals: equations in [eqb] form *)
-Definition hd_is (lit : string) (l : tokens) : bool :=
-  match l with t :: _ => teq t lit | [] => false end.
 
 Ltac dchar c := destruct c as [[|] [|] [|] [|] [|] [|] [|] [|]].
 Ltac dlit0 t := idtac.
